@@ -156,7 +156,8 @@ class Eraser(object):
         if 'combine_imports' in self.o:
             out = self.split_imports(out)
         if 'remove_explicit_return_none' in self.o and isinstance(owner, (ast.FunctionDef, ast.AsyncFunctionDef)) and field == 'body':
-            if out and isinstance(out[-1], ast.Return) and out[-1].value is None:
+            # every bare return at the end of a function body (S removes them one at a time)
+            while out and isinstance(out[-1], ast.Return) and out[-1].value is None:
                 out.pop()
         if not out and not isinstance(owner, ast.Module):
             out = [_zero()]
@@ -187,6 +188,8 @@ class Eraser(object):
         if isinstance(st, ast.If) and 'remove_debug' in o and _debug_test(st.test):
             # what the interpreter runs when __debug__ is False: the else branch
             res = []
+            if len(st.orelse) == 1 and _is_literal_stmt(st.orelse[0]) and st.orelse[0].value.value == 0 and type(st.orelse[0].value.value) is int:
+                return res      # `else: 0` is an else suite that was emptied (the placeholder): nothing runs
             for s2 in st.orelse:
                 res += self.stmt(s2, owner, klass, False)
             return res
@@ -332,7 +335,7 @@ OUT_STMT = {
     ('zero',): '0', ('assign',): 'av = emit("annval")', ('annzero',): 'an: 0', ('annzero_zq',): 'zq: 0', ('raise0_nb',): 'raise ValueError',
     ('raisefrom_nb_exc',): 'raise ValueError from KeyError()', ('raisefrom_nb_cause',): 'raise ValueError() from KeyError',
     ('raisefrom_nb_both',): 'raise ValueError from KeyError', ('classnoobj',): 'class Inner: emit("inner")', ('nodbg',): 'emit("nodbg")',
-    ('elif_if',): 'if emit("elif"): emit("elifbody")',
+    ('elif_if',): 'if emit("elif"): emit("elifbody")', ('dbg_else0',): 'if __debug__: emit("dbg")\nelse: 0',
 }
 _MOD = {'a': 'os', 'b': 'sys'}
 _FROM = {'x': 'path', 'y': 'sep', 'z': 'argv'}
